@@ -27,17 +27,21 @@ ExpectedRes(p) == IF Poisoned(p) THEN "security" ELSE "exc"
 ExpectedClsKind(p) == CASE p.k = "exc" -> {"resolved"}
                         [] p.k = "exc_noinit" -> {"resolved", "generic"}
                         [] OTHER -> {"synthetic"}
-C20Check(ev) ==
-     (IF ev.called # 0 THEN {"C20_NoForeignCall"} ELSE {})
-  \cup (IF ev.imported # 0 THEN {"C20_NoImport"} ELSE {})
-  \cup (IF ev.res \notin {"exc", "security", "validation"} THEN {"C20_Outcome"} ELSE {})
-  \cup (IF Poisoned(ev.p) /\ ev.res = "exc" THEN {"C20_Nested"} ELSE {})
+(* which class comes back: only for payloads that go through name resolution (not the pickle-flavoured stand-in object) *)
+C20Resolution(ev) ==
+     (IF Poisoned(ev.p) /\ ev.res = "exc" THEN {"C20_Nested"} ELSE {})
   \cup (IF ~Poisoned(ev.p) /\ ev.res # "exc" THEN {"C20_RejectedGood"} ELSE {})
   \cup (IF ev.res = "exc" /\ ~Poisoned(ev.p) /\ ev.p.k \in SynthKinds /\ (ev.cls_kind # "synthetic" \/ ~ev.name_ok)
         THEN {"C20_Synthetic"} ELSE {})
   \cup (IF ev.res = "exc" /\ ~Poisoned(ev.p) /\ ev.p.k \in ExcKinds /\ ev.cls_kind \notin ExpectedClsKind(ev.p)
         THEN {"C20_Resolved"} ELSE {})
   \cup (IF ev.second \notin {"n/a", "resolved"} THEN {"C19_ResolvedOnceLoaded"} ELSE {})
+
+C20Check(ev) ==
+     (IF ev.called # 0 THEN {"C20_NoForeignCall"} ELSE {})
+  \cup (IF ev.imported # 0 THEN {"C20_NoImport"} ELSE {})
+  \cup (IF ev.res \notin {"exc", "security", "validation"} THEN {"C20_Outcome"} ELSE {})
+  \cup (IF ev.wrap THEN {} ELSE C20Resolution(ev))
 
 (* ---------------------------------------------------------------- C19 *)
 Importable == {"builtin", "builtin2", "module", "nested", "baseonly", "eqhash", "dcerr", "attr"}
